@@ -203,7 +203,10 @@ class Run:
         if not cl["new"] and (not proofs_ok or not corr_ok) and self.impl_exe and self.model_exe:
             # widen the search for a concrete failing input before giving up
             for k in range(1, 4 if self.tier == "quick" else 9):
-                extra = self.p.gen(vlib.XorShift(self.seed * 1000003 + k), "thorough")
+                if hasattr(self.p, "widen"):
+                    extra = self.p.widen(vlib.XorShift(self.seed * 1000003 + k), k)
+                else:
+                    extra = self.p.gen(vlib.XorShift(self.seed * 1000003 + k), "thorough")
                 # centre extra effort on neighbours of the first disagreeing cases when the property offers it
                 if cl["diffs"] and hasattr(self.p, "neighbours"):
                     extra = self.p.neighbours(vlib.XorShift(self.seed + k), [d["case"] for d in cl["diffs"][:5]]) + extra
